@@ -11,6 +11,34 @@ fn ext_cedar_name(n: &str) -> &str {
     n
 }
 
+/// A common type: (namespace it is declared in, name, the type it stands for)
+pub type Common = (String, String, RType);
+
+thread_local! {
+    static COMMONS: std::cell::RefCell<Vec<Common>> = const { std::cell::RefCell::new(Vec::new()) };
+}
+
+/// Run `f` with the given common types available to the type printers: a type equal to a common type
+/// declared in the namespace being printed is (with probability 1/2, tape-driven) written as a reference.
+pub fn with_commons<T>(commons: &[Common], f: impl FnOnce() -> T) -> T {
+    COMMONS.with(|c| *c.borrow_mut() = commons.to_vec());
+    let r = f();
+    COMMONS.with(|c| c.borrow_mut().clear());
+    r
+}
+
+fn common_ref(ty: &RType, ns: &str, t: &mut Option<&mut Tape>) -> Option<String> {
+    let hit = COMMONS.with(|c| c.borrow().iter().find(|(cns, _, cty)| cns == ns && cty == ty).map(|(_, n, _)| n.clone()));
+    match hit {
+        Some(n) if t.as_mut().map(|t| t.coin()).unwrap_or(false) => Some(n),
+        _ => None,
+    }
+}
+
+fn commons_in(ns: &str) -> Vec<Common> {
+    COMMONS.with(|c| c.borrow().iter().filter(|(cns, _, _)| cns == ns).cloned().collect())
+}
+
 /// name of `q` as written from inside namespace `ns` (fully qualified unless the tape says otherwise)
 fn rel_name(q: &str, ns: &str, t: &mut Option<&mut Tape>) -> String {
     let (qns, base) = split_name(q);
@@ -24,6 +52,9 @@ fn rel_name(q: &str, ns: &str, t: &mut Option<&mut Tape>) -> String {
 }
 
 pub fn type_json(ty: &RType, ns: &str, t: &mut Option<&mut Tape>) -> J {
+    if let Some(n) = common_ref(ty, ns, t) {
+        return if t.as_mut().map(|t| t.coin()).unwrap_or(false) { json!({"type": "EntityOrCommon", "name": n}) } else { json!({"type": n}) };
+    }
     match ty {
         RType::Bool => json!({"type": "Boolean"}),
         RType::Long => json!({"type": "Long"}),
@@ -100,7 +131,24 @@ pub fn schema_json(s: &RSchema, mut t: Option<&mut Tape>) -> J {
             }
             acts.insert(a.id.clone(), J::Object(m));
         }
-        out.insert(ns.clone(), json!({"entityTypes": ets, "actions": acts}));
+        let cs = commons_in(&ns);
+        if cs.is_empty() {
+            out.insert(ns.clone(), json!({"entityTypes": ets, "actions": acts}));
+        } else {
+            let mut cm = Map::new();
+            for (_, name, cty) in &cs {
+                // the definition itself is written structurally (never as a reference to itself)
+                let def = COMMONS.with(|c| {
+                    let saved = c.borrow().clone();
+                    c.borrow_mut().retain(|(_, n, _)| n != name);
+                    let d = type_json(cty, &ns, &mut None);
+                    *c.borrow_mut() = saved;
+                    d
+                });
+                cm.insert(name.clone(), def);
+            }
+            out.insert(ns.clone(), json!({"commonTypes": cm, "entityTypes": ets, "actions": acts}));
+        }
     }
     J::Object(out)
 }
@@ -114,6 +162,9 @@ fn cedar_ident_or_str(k: &str) -> String {
 }
 
 pub fn type_cedar(ty: &RType, ns: &str, t: &mut Option<&mut Tape>) -> String {
+    if let Some(n) = common_ref(ty, ns, t) {
+        return n;
+    }
     match ty {
         RType::Bool => "Bool".into(),
         RType::Long => "Long".into(),
@@ -176,6 +227,18 @@ pub fn schema_cedar(s: &RSchema, mut t: Option<&mut Tape>) -> String {
             line.push_str(";\n");
             body.push_str(&line);
         }
+        let mut cbody = String::new();
+        for (_, name, cty) in commons_in(&ns) {
+            let def = COMMONS.with(|c| {
+                let saved = c.borrow().clone();
+                c.borrow_mut().retain(|(_, n, _)| n != &name);
+                let d = type_cedar(&cty, &ns, &mut None);
+                *c.borrow_mut() = saved;
+                d
+            });
+            cbody.push_str(&format!("  type {name} = {def};\n"));
+        }
+        let body = format!("{cbody}{body}");
         if ns.is_empty() {
             out.push_str(&body.replace("\n  ", "\n").trim_start_matches("  ").to_string());
         } else {
